@@ -36,14 +36,17 @@ var rootCmd = &cobra.Command{
 		verbosity, _ := cmd.Flags().GetUint8("verbosity")
 		logger.SetLogLevel(logger.LogLevel(verbosity))
 	},
-	Run: func(cmd *cobra.Command, args []string) {
+	RunE: func(cmd *cobra.Command, args []string) error {
 		logger.Info(`Gleece called with no parameters. Assuming 'generate spec-and-routes -c "./gleece.config.json"'`)
 		err := GenerateSpecAndRoutes(arguments.CliArguments{ConfigPath: "./gleece.config.json"})
 		if err != nil {
 			logger.Fatal("Failed to generate spec and routes: %v", err)
-		} else {
-			logger.Info("Spec and routes generation successful")
+			// Returned so that Execute() ends the process with a non-zero status, same as the explicit sub-commands
+			return err
 		}
+
+		logger.Info("Spec and routes generation successful")
+		return nil
 	},
 }
 
